@@ -365,7 +365,9 @@ def main(argv):
         print("no check for %s: %s" % (prop, e))
         return 2
     try:
-        binary = build.build("mon")
+        # FSV_COVERAGE=<dir> (tools/coverage.sh only): run the workload on the coverage-instrumented build to see which
+        # source lines it reaches; such a run decides nothing and the registered commands never set the variable
+        binary = build.build("cov" if os.environ.get("FSV_COVERAGE") else "mon")
     except RuntimeError as e:
         print("INCONCLUSIVE property=%s build failed: %s" % (prop, e))
         return 2
